@@ -16,7 +16,7 @@ def load_corpus(prop_id):
 
 
 def run_history_property(ctx, prop_id, gen_case, n, rule, nontrivial, env_of=lambda c: {}, extra_enc=None, extra_sha=None,
-                         judge=None, extra_oracle=None, dist_fn=None, max_report=5, klass=None, data_ok=lambda d: True):
+                         judge=None, extra_oracle=None, dist_fn=None, max_report=5, klass=None, data_ok=lambda d: True, extra_batch=None):
     """gen_case(rng) -> ["history", None, ops]; judge(case, im, mo) -> None | why"""
     rng = core.Rng(ctx.seed)
     corpus = load_corpus(prop_id)
@@ -33,7 +33,8 @@ def run_history_property(ctx, prop_id, gen_case, n, rule, nontrivial, env_of=lam
     nt = 0
     skipped = 0
     dist = {}
-    for c, a, b in zip(cases, im, mo):
+    batch_why = extra_batch(ctx, cases, im, mo) if extra_batch else [None] * len(cases)
+    for ci, (c, a, b) in enumerate(zip(cases, im, mo)):
         if hist.has_oracle_miss(b):
             skipped += 1
         if dist_fn:
@@ -41,6 +42,8 @@ def run_history_property(ctx, prop_id, gen_case, n, rule, nontrivial, env_of=lam
         why = judge(c, a, b)
         if why is None and extra_oracle:
             why = extra_oracle(ctx, c, a, b)
+        if why is None:
+            why = batch_why[ci]
         h = core.vhash(c[2])
         if h not in seen and nontrivial(c, a, b):
             seen.add(h)
